@@ -76,7 +76,7 @@ class monitor_mode:
 
 def jsonable(x, depth=0):
     """Best-effort conversion of witness data to JSON-serialisable form."""
-    if depth > 6:
+    if depth > 12:
         return repr(x)
     if x is None or isinstance(x, (bool, int, float, str)):
         return x
